@@ -256,9 +256,6 @@ func (r *runner) exec(c cmd) (res string, flag string) {
 	case "join":
 		ch, ok := r.pending[c.C]
 		if !ok {
-			if _, held := r.ctxs[c.C]; held {
-				return "acquired", ""
-			}
 			return "misuse", ""
 		}
 		delete(r.pending, c.C)
